@@ -256,6 +256,8 @@ pub struct SModel {
     pub empty_shdr_table: bool,
     /// fingerprints of the distinct open-stream states reached (evidence: distinct non-trivial)
     pub seen: std::sync::Mutex<std::collections::HashSet<u64>>,
+    /// for very large files: use the header digest as state fingerprint (no search is run on them)
+    pub cheap_fingerprint: bool,
 }
 
 struct Replayed {
@@ -282,6 +284,7 @@ impl SModel {
             slice_open_digest,
             empty_shdr_table: empty,
             seen: std::sync::Mutex::new(std::collections::HashSet::new()),
+            cheap_fingerprint: false,
         }
     }
 
@@ -436,7 +439,7 @@ impl SModel {
                         (2u8, 1u128, false)
                     }
                     Ok(Err(())) => (2, 2, false),
-                    Ok(Ok(s)) => (1, fingerprint(s, &st), true),
+                    Ok(Ok(s)) => (1, if self.cheap_fingerprint { open_digest_stream(s) as u128 } else { fingerprint(s, &st) }, true),
                 };
                 if bad.is_none() {
                     match self.which {
@@ -860,7 +863,8 @@ impl Space for HugeOpen {
         let img = make(enc, 0xff20, 0x10010, 2, Placement::PhThenSh, &e, shs, phs);
         let bytes = Arc::new(img.bytes);
         let image = Image { name: format!("huge-tables/{}", enc.name()), bytes: bytes.clone(), shdr_pool: Vec::new(), phdr_pool: Vec::new(), names: Vec::new(), ops: Vec::new() };
-        let m = SModel::new(image, self.which, 1);
+        let mut m = SModel::new(image, self.which, 1);
+        m.cheap_fingerprint = true;
         let init = m.init_states()[0].clone();
         let l = bytes.len() as u64;
         for p0 in [0u64, 16, l, l + 5] {
@@ -1030,6 +1034,10 @@ pub fn stream_variant_check(which: Which, open_dev: bool, bytes: &[u8], out: &mu
     let positions: [u64; 4] = [0, 16, flen as u64, flen as u64 + 3];
     let plan: Vec<(Vec<(u32, Choice)>, u64)> = scripts.iter().map(|s| (s.clone(), 0)).chain(positions[1..].iter().map(|p| (Vec::new(), *p))).collect();
     for (si, (sc, p0)) in plan.iter().enumerate() {
+        // the reader-position sweep is only informative for files that open from position 0
+        if *p0 != 0 && opened.is_none() {
+            continue;
+        }
         arm_alloc_limit(flen);
         let (r, st) = open_stream_at(&img.bytes, sc, *p0);
         let stats = alloc::stats();
